@@ -3,7 +3,8 @@ From Coq Require Import List NArith Bool.
 Import ListNotations.
 From Mos Require Import model.Nom model.Parser spec.LayoutEquiv proofs.C08Sweep.
 From Mos Require Import model.Format Gen.FmtRules model.FormatTokens model.FormatParse model.FormatCmd spec.FormatSpec proofs.FormatSweepDefs proofs.FormatSweep
-  proofs.FormatProofs proofs.FormatTokensProofs proofs.FormatPreserved proofs.FormatCmdProofs spec.FormatFlat proofs.FormatFlatProofs spec.FormatSource proofs.FormatSourceProofs.
+  proofs.FormatProofs proofs.FormatTokensProofs proofs.FormatPreserved proofs.FormatCmdProofs spec.FormatFlat proofs.FormatFlatProofs spec.FormatSource proofs.FormatSourceProofs proofs.FormatSourceTotal.
+From Mos Require proofs.FormatShapeProofs.
 
 (* Line assembly (join_chunks), for ALL chunk lists and ALL options: the non-whitespace characters of the output are
    exactly those of the chunk texts, in the same order -- no token or comment character is lost, invented or reordered
@@ -68,19 +69,26 @@ Theorem C12_chars_preserved : forall o ts, wf_tokens ts = true ->
 Proof. exact format_flat. Qed.
 Print Assumptions C12_chars_preserved.
 
-(* ... and end to end on a source text, unbounded, through the parser model (model/Parser.v, C05): when a file parses
-   without diagnostics, `format_source o s` = format o (parse s) is defined and, blanks, line breaks and ASCII letter
-   case aside, consists of exactly the characters of the source text in the same order (composition of
-   C12_chars_preserved, a structural comparison of spec/FormatFlat.v with Display's rendering, and C05_lossless).
-   _partial: the hypothesis `parser_shaped toks` (spec/FormatSource.v, decidable: whitespace trivia are whitespace, operands
-   carry only what their addressing mode prints, a label's colon follows the name, config values are blocks or
-   expressions) is a fact about the parser model that is not proved here; checks/c12.py evaluates it on the parse of
-   every generated file (tie item hypothesis:parser_shaped), and source_shaped_example shows it is satisfiable. *)
-Theorem C12_source_chars_partial : forall o s toks,
-  Parser.parse s = Parser.Parsed toks [] -> parser_shaped toks = true ->
+(* ... and end to end on a source text, unbounded, through the parser model (model/Parser.v, C05), no side condition:
+   when a file parses without diagnostics, `format_source o s` = format o (parse s) is defined and, blanks, line breaks
+   and ASCII letter case aside, consists of exactly the characters of the source text in the same order (composition of
+   C12_chars_preserved, a structural comparison of spec/FormatFlat.v with Display's rendering, C05_lossless, and
+   C12_parser_shaped below). *)
+Theorem C12_source_chars : forall o s toks,
+  Parser.parse s = Parser.Parsed toks [] ->
   exists f, format_source o s = Some f /\ lc (nows f) = lc (nows s).
-Proof. exact format_source_chars. Qed.
-Print Assumptions C12_source_chars_partial.
+Proof. exact source_chars. Qed.
+Print Assumptions C12_source_chars.
+
+(* The facts about the parser model that the structural comparison needs (spec/FormatSource.v, parser_shaped: whitespace
+   trivia consist of blanks, operands carry only what their addressing mode prints, a label's colon follows the name
+   directly, config values are blocks or expressions and `.define` values blocks, the tokens of a block / file are
+   statements), for EVERY text and every parse result, with or without diagnostics: proved over model/Parser.v by a
+   postcondition calculus, one lemma per combinator and per grammar function (proofs/FormatShapeProofs.v). *)
+Theorem C12_parser_shaped : forall s toks diags,
+  Parser.parse s = Parser.Parsed toks diags -> parser_shaped toks = true.
+Proof. exact FormatShapeProofs.parse_shaped. Qed.
+Print Assumptions C12_parser_shaped.
 
 (* The formatted text parses to the same tokens: with model/Parser.v (C05) and the projection model/FormatParse.v,
    `format_source o s` = format o (parse s) is a Gallina term, tied to the real parse + format on every generated file.
